@@ -32,6 +32,13 @@ class LoopSpec(Spec):
         return dict(jobs=[dict(layout=j["layout"], **j["cfg"]) for j in self.jobs(tier)],
                     note="N = number of refreshData() calls with a free control word each, then shutdown")
 
+    def extra(self, tier, seed):
+        """Stub validation: random lock-step driver-station scripts through the stubs and through the real
+        wpilib simulator (robot thread + DriverStationSim + stepped FPGA time); event logs must be identical."""
+        r = lcm.validate_against_real(seed, 6 if tier == "quick" else 24)
+        return dict(obligations=0, discharged=0, validated=r["validated"], problems=r["problems"], samples=r["samples"],
+                    info=dict(loop_scripts_identical_in_stub_and_real_world=r["validated"], notes=r["notes"]))
+
     def trigger(self, viol, job):
         info = viol.get("info") or {}
         return dict(layout=job.get("layout"), site=info.get("site"))
